@@ -111,6 +111,7 @@ type State struct {
 	regions  int
 	allocs   []string // allocation size terms (elements), for the allocation bound
 	pool     map[int][]string // instantiation terms by width, for callee quantifiers
+	ghostMemo map[string][]V  // results of ghost calls by (callee, argument terms, memory versions)
 	qasm     []*qAssume       // quantified assumptions, instantiated again whenever a new term appears
 	inLate   bool
 	loopInits [][2]string     // (havocked loop symbol, its value on loop entry): replay prefers first iterations
@@ -168,6 +169,10 @@ func (st *State) fork() *State {
 	n.allocs = append([]string(nil), st.allocs...)
 	n.loopInits = append([][2]string(nil), st.loopInits...)
 	n.qasm = append([]*qAssume(nil), st.qasm...)
+	n.ghostMemo = map[string][]V{}
+	for k, v := range st.ghostMemo {
+		n.ghostMemo[k] = v
+	}
 	n.pool = map[int][]string{}
 	for k, v := range st.pool {
 		n.pool[k] = append([]string(nil), v...)
